@@ -16,4 +16,5 @@ def jobs(tier, seed):
         J.append(product_job(P, f'target-ascii-L{L}', G, sc('req', L, prefix=b'X ', suffix=b' HTTP/1.1\r\n\r\n', api='parse', cap=1,
                              fixed={i: NOCTL for i in range(L)}), T(tier, 60, 300), f'"X " + {L} symbolic target bytes (any 7-bit value but SP) + " HTTP/1.1" CRLFCRLF',
                              family='target-ascii', mandatory=(L <= 10)))
+    J += sliding_families(P, G, tier, step=T(tier, 2, 1), pool=('req-post', 'req-lf'), max_off=26)
     return J
